@@ -57,6 +57,16 @@ def spec_fixed(counts, epochs):
     return out, ties
 
 
+def spec_fixed_strict(counts, epochs, k):
+    """last index i with Y[i]/Y[n] strictly below k/epochs (what the code returns when its grid value rounds below the
+    exact fraction at an exact tie)"""
+    Y = [Fraction(0)]
+    for c in counts:
+        Y.append(Y[-1] + Fraction(float(c)))
+    z = Fraction(k, epochs) * Y[-1]
+    return max(i for i in range(len(counts) + 1) if Y[i] < z)
+
+
 def near_tie(counts, epochs, rel=1e-12):
     """some cumulative fraction is within `rel` of some k/epochs (float rounding of the cumulative sums or of the
     grid may move the boundary by one index there)"""
